@@ -17,7 +17,9 @@ Inductive mutex := L | M.
 Definition mutex_eqb (a b : mutex) : bool := match a, b with L, L | M, M => true | _, _ => false end.
 
 (* flat skeleton of one logging call *)
-Inductive instr := Lock (m : mutex) | Unlock (m : mutex) | Work | Other.
+(* Work = the pipeline run (handlers incl. Sink::send); Flush = SimplePipeline::flush() (Sink::flush of every sink:
+   the fatal path of Logger::processMessage); both touch the sinks *)
+Inductive instr := Lock (m : mutex) | Unlock (m : mutex) | Work | Flush | Other.
 (* Logger::processMessage as the translator sees it: its own instructions and the virtual call
    process(lmsg), which for a Logger is OwnThreadHandler<SimplePipeline>::process *)
 Inductive linstr := LI (i : instr) | LCall.
@@ -39,12 +41,24 @@ Definition next (g : mutex) (p : phase) (i : instr) : phase :=
   | Lock m => if mutex_eqb m g then match p with P0 => P1 | _ => PErr end else p
   | Unlock m => if mutex_eqb m g then match p with P2 => P3 | _ => PErr end else p
   | Work => match p with P1 => P2 | _ => PErr end
-  | Other => p
+  | Flush | Other => p
   end.
 Definition phase_at (g : mutex) (sk : list instr) (n : nat) : phase := fold_left (next g) (firstn n sk) P0.
 Definition shape (g : mutex) (sk : list instr) : bool :=
   match fold_left (next g) sk P0 with P3 => true | _ => false end.
 Definition bracketed (sk : list instr) : bool := shape L sk || shape M sk.
+(* every Flush is executed while the guarding mutex is held (phase P1 or P2) *)
+Definition holding (p : phase) : bool := match p with P1 | P2 => true | _ => false end.
+Fixpoint flush_guarded_from (g : mutex) (sk : list instr) (p : phase) : bool :=
+  match sk with
+  | [] => true
+  | i :: r => (match i with Flush => holding p | _ => true end) && flush_guarded_from g r (next g p i)
+  end.
+Definition sinks_guarded (sk : list instr) : bool :=
+  (shape L sk && flush_guarded_from L sk P0) || (shape M sk && flush_guarded_from M sk P0).
+(* two entry points (a call through Qt's macros / a direct call of process()) exclude each other only if they are
+   guarded by one and the same mutex *)
+Definition share_guard (a b : list instr) : bool := (shape L a && shape L b) || (shape M a && shape M b).
 
 (* ---- interleaving semantics -------------------------------------------------------------------- *)
 Inductive wphase := W0 | W1 | W2 (tmp : nat) | W3 (tmp : nat).
@@ -95,7 +109,7 @@ Definition step (sk : list instr) (quota : nat -> nat) (s : state) (t : nat) : o
                           log := log s ++ [(t, idx ts, tmp)]; acq := acq s;
                           evs := evs s ++ [EDeliver t (idx ts) tmp] |}
       end
-  | Some Other =>
+  | Some Flush | Some Other =>    (* the model gives Flush no effect of its own: only WHERE it runs matters (at_sink) *)
       Some {| th := upd (th s) t (mk_t (S (pc ts)) W0 (idx ts)); owner := owner s; count := count s;
               log := log s; acq := acq s; evs := evs s |}
   end.
@@ -107,6 +121,9 @@ Fixpoint run (sk : list instr) (quota : nat -> nat) (s : state) (sched : list na
   end.
 Definition s0 : state := {| th := fun _ => mk_t 0 W0 0; owner := fun _ => None; count := 0; log := []; acq := []; evs := [] |}.
 Definition inside (s : state) (t : nat) : bool := match wph (th s t) with W0 => false | _ => true end.
+(* thread t is at (about to execute / executing) an instruction that touches the sinks *)
+Definition at_sink (sk : list instr) (s : state) (t : nat) : bool :=
+  match nth_error sk (pc (th s t)) with Some Work | Some Flush => true | _ => false end.
 (* every thread below n has sent all its messages *)
 Definition finishedb (n : nat) (quota : nat -> nat) (s : state) : bool :=
   forallb (fun t => Nat.eqb (idx (th s t)) (quota t)) (seq 0 n).
